@@ -198,6 +198,15 @@ def deep_history(g, cfg, seed):
                 h.apply({'op': 'rm_directory', 'iso_path': max(leaves, key=m_.depth)})
             else:
                 break
+        if r.random() < 0.7:
+            # ... and relocate a directory again on the same object: the relocation directory comes
+            # back, under the names that were chosen for it
+            m_ = h.sess.model
+            d7 = sorted(d for d in m_.dirs('iso') if m_.depth(d) == 7)
+            if d7:
+                op = {'op': 'add_directory', 'iso_path': join(r.choice(d7), g.iso_dir_name(cfg.level)), 'rr_name': g.rr_name()}
+                if h.apply(op).ok and r.random() < 0.5:
+                    h.apply({'op': 'add_fp', 'cid': g.new_cid() + 500, 'length': 13, 'iso_path': join(op['iso_path'], g.iso_file_name(cfg.level)), 'rr_name': g.rr_name()})
     return h
 
 
